@@ -58,7 +58,7 @@ func (S05) Info() scen.Info {
 			"goroutine scheduling": "stub: seeded one-at-a-time scheduler",
 		},
 		QuickUnits: 80000, ThoroughUnits: 3000000, QuickSecs: 240, ThoroughSecs: 1200,
-		ProbeKeys: []string{"probe.trusted_storage", "probe.identity_reifier", "probe.store_then_load", "probe.same_value_two_orders", "probe.same_value_two_impls", "probe.load_never_stored", "probe.reload_of_loaded_node_stored", "probe.fill_reused_builder", "probe.cidv0", "probe.identity_hash", "probe.truncated_digest", "probe.concurrent_store_load"},
+		ProbeKeys: []string{"probe.typed_node_with_renaming_representation", "probe.trusted_storage", "probe.identity_reifier", "probe.store_then_load", "probe.same_value_two_orders", "probe.same_value_two_impls", "probe.load_never_stored", "probe.reload_of_loaded_node_stored", "probe.fill_reused_builder", "probe.cidv0", "probe.identity_hash", "probe.truncated_digest", "probe.concurrent_store_load"},
 		EventsKey: "events",
 	}
 }
@@ -85,6 +85,11 @@ type Rec struct {
 	Name String
 	N Int
 	Tags [String]
+}
+type RecRenamed struct {
+	Name String (rename "n")
+	N Int (rename "i")
+	Tags [String] (rename "t")
 }`))
 	if err != nil {
 		panic(err)
@@ -102,6 +107,10 @@ func recordValue(t *sim.Tape) *model.V {
 }
 
 func recordNode(v *model.V) datamodel.Node {
+	return bindnode.Wrap(recordGo(v), boundTS.TypeByName("Rec")).Representation()
+}
+
+func recordGo(v *model.V) *bound {
 	g := &bound{Name: v.Get("Name").S, N: v.Get("N").I}
 	for _, x := range v.Get("Tags").Vals {
 		g.Tags = append(g.Tags, x.S)
@@ -109,7 +118,14 @@ func recordNode(v *model.V) datamodel.Node {
 	if g.Tags == nil {
 		g.Tags = []string{}
 	}
-	return bindnode.Wrap(g, boundTS.TypeByName("Rec")).Representation()
+	return g
+}
+
+// recordTypedNode is the same record as a TYPED node (type-level view) of a struct type whose
+// representation renames every field: handed to the link system as it is, its data-model value is
+// what its type-level view reads as, whichever entry point is used.
+func recordTypedNode(v *model.V) datamodel.Node {
+	return bindnode.Wrap(recordGo(v), boundTS.TypeByName("RecRenamed"))
 }
 
 var c05Counter int64
@@ -334,6 +350,9 @@ func (S05) RunTape(t *sim.Tape, st *sim.Stats, keepLog bool) *sim.Outcome {
 		case how == 2 && v.record:
 			st.Inc("probe.same_value_two_impls")
 			return recordNode(v.v), "bindnode"
+		case how == 1 && v.record:
+			st.Inc("probe.typed_node_with_renaming_representation")
+			return recordTypedNode(v.v), "bindnode-typed(renaming representation)"
 		}
 		permute := c.SortMode != model.SortNone && how != 0
 		n := build(t, v.v, permute)
@@ -441,7 +460,9 @@ func (S05) RunTape(t *sim.Tape, st *sim.Stats, keepLog bool) *sim.Outcome {
 			}
 			checkLink(sig+" ComputeLink", pi, vi, l, false)
 			// the codec helper's bytes, hashed independently, give the same link
-			if enc, eerr := lsys.EncoderChooser(lp); eerr == nil {
+			if _, typed := n.(schema.TypedNode); typed {
+				// ipld.Encode writes a typed node's representation; the link system takes the node as given
+			} else if enc, eerr := lsys.EncoderChooser(lp); eerr == nil {
 				if b, berr := ipld.Encode(n, enc); berr != nil {
 					o.Fail("computelink-failed", sig, "ipld.Encode of value #%d failed (%v) although ComputeLink succeeded", vi, berr)
 				} else if !hashesTo(l, b) {
